@@ -265,11 +265,17 @@ func buildGo(tag string, named int, payload string) (any, bool) {
 			rv.SetString(ss[0])
 			return rv.Interface(), true
 		}
-		rv := reflect.MakeSlice(reflect.SliceOf(et), len(ss), len(ss))
+		// spare capacity beyond len (filled with junk) is legal and must never show: slices grown by append,
+		// re-slices, make with capacity (seeded change C06-2: Cap() instead of Len() in the reflection fallback)
+		extra := len(payload) % 4
+		rv := reflect.MakeSlice(reflect.SliceOf(et), len(ss)+extra, len(ss)+extra)
 		for i := range ss {
 			rv.Index(i).SetString(ss[i])
 		}
-		return rv.Interface(), true
+		for i := len(ss); i < len(ss)+extra; i++ {
+			rv.Index(i).SetString("junk")
+		}
+		return rv.Slice(0, len(ss)).Interface(), true
 	}
 	b, err := hex.DecodeString(payload)
 	if err != nil {
@@ -330,11 +336,15 @@ func buildGo(tag string, named int, payload string) (any, bool) {
 		return rv.Interface(), true
 	}
 	n := len(b) / w
-	rv := reflect.MakeSlice(reflect.SliceOf(et), n, n)
+	extra := (len(b) + n) % 4 // spare capacity filled with junk, see above
+	rv := reflect.MakeSlice(reflect.SliceOf(et), n+extra, n+extra)
 	for i := 0; i < n; i++ {
 		setEl(rv.Index(i), leUint(b[i*w:(i+1)*w]))
 	}
-	return rv.Interface(), true
+	for i := n; i < n+extra; i++ {
+		setEl(rv.Index(i), 1)
+	}
+	return rv.Slice(0, n).Interface(), true
 }
 
 var basicTypes = map[string]reflect.Type{
